@@ -148,7 +148,9 @@ def run(ctx):
             k += 1
             in_core_cycle = name.startswith(CORE) and (own is not None or f.get("parent") in carriers)
             if d[0] == "param":
-                need = 1 if (name == FCALL and c == EVAL) else 0
+                # FunctionDef::call is the one place where a Blots-level call is counted: the body and the built-in dispatch both run one
+                # level down (a built-in's own native frames - and those of the callbacks it makes - are part of the per-level stack budget)
+                need = 1 if (name == FCALL and c in (EVAL, BCALL)) else 0
                 ctx.inst("C18.R2", key, d[1] >= need, "passes call_depth + %d (needs >= %d)" % (d[1], need), fn.loc(b))
                 # the converse clause: only Blots-level calls consume depth. Edges between the evaluator's own functions (sub-expressions,
                 # operators, do-blocks) are not calls and must pass the depth on unchanged; the body edge adds exactly one.
@@ -227,6 +229,22 @@ def run(ctx):
             continue
         ctx.inst("C18.R6", "cycle:" + n_.replace(CORE, ""), inl != "Always", "inline attribute: %s" % inl, H.loc(hf_["body"]) if hf_.get("body") else None)
     ctx.units["functions_on_the_evaluation_cycle"] = len(cyc)
+
+    # ---------------- R7 name lookup has no depth of its own
+    ctx.rule("C18.R7", "looking a name up walks the whole scope chain: Environment::get / contains_key have no iteration bound of their own (each call adds two or three scopes, so a bound near the call-depth limit makes globals unreachable a few hundred calls deep and turns the depth error into 'unknown identifier')", floor=2)
+    for fname_ in sorted(core.hir):
+        if not fname_.startswith(CORE + "environment::Environment::") or H.last(fname_) not in ("get", "contains_key") or core.hir[fname_].get("body") is None:
+            continue
+        fb_ = core.hir_fn(fname_)
+        bounded = []
+        for lp_ in H.walk(fb_["body"]):
+            if H.kind(lp_) == "For":
+                it_ = H.strip(lp_["iter"])
+                if H.kind(it_) == "Struct" and "ops::range::Range" in ((it_.get("res") or {}).get("def") or ""):
+                    bounded.append(H.loc(lp_))
+                elif H.kind(it_) == "MethodCall" and it_["name"] in ("take", "take_while"):
+                    bounded.append(H.loc(lp_))
+        ctx.inst("C18.R7", fname_.replace(CORE, "") + "#unbounded-walk", not bounded, "loops with an iteration bound in the scope-chain walk: %s" % (bounded or "none"), H.loc(fb_["body"]))
 
     ctx.rule("C18.R3s", "the evaluator runs on the main thread (8 MiB default) or on a thread whose explicit stack size is at least that; recorded for the stack budget", floor=1)
     sizes = []
